@@ -35,7 +35,11 @@ SKIP_FUNCS = {"to_math_ml_fragment", "to_math_ml", "make_ml_tag", "get_ml_name",
               "compare_expression_string_values", "raise_with_history", "compare_expression_values", "compare_equation_values", "print_error", "pad_array",
               "is_debug_mode", "set_changed", "all_changed", "raw"}
 SWAP = {"left": "right", "right": "left", "set_left": "set_right", "set_right": "set_left", "leftExponent": "rightExponent", "rightExponent": "leftExponent", "leftVariable": "rightVariable", "rightVariable": "leftVariable"}
-OPS = os.environ.get("MUTATE_OPS", "basic")  # basic | swap | all
+OPS = os.environ.get("MUTATE_OPS", "basic")  # basic | swap | class | all
+# a neighbouring expression class in an isinstance test or a constructor call (the copy-and-paste slip)
+CLASS = {"AddExpression": "SubtractExpression", "SubtractExpression": "AddExpression", "MultiplyExpression": "DivideExpression", "DivideExpression": "MultiplyExpression",
+         "PowerExpression": "MultiplyExpression", "ConstantExpression": "VariableExpression", "VariableExpression": "ConstantExpression", "NegateExpression": "AbsExpression",
+         "EqualExpression": "AddExpression", "BinaryExpression": "MathExpression"}
 CMP = {ast.Eq: ast.NotEq, ast.NotEq: ast.Eq, ast.Lt: ast.LtE, ast.LtE: ast.Lt, ast.Gt: ast.GtE, ast.GtE: ast.Gt, ast.Is: ast.IsNot, ast.IsNot: ast.Is, ast.In: ast.NotIn, ast.NotIn: ast.In}
 
 
@@ -73,6 +77,8 @@ class Collector(ast.NodeVisitor):
             self.points.append((node._mid, "swap", 0, fn, node.lineno))
         elif isinstance(node, ast.Name) and node.id in ("LEFT", "RIGHT") and self.stack and OPS in ("all", "swap"):
             self.points.append((node._mid, "swapname", 0, fn, node.lineno))
+        elif isinstance(node, ast.Name) and node.id in CLASS and isinstance(node.ctx, ast.Load) and self.stack and OPS in ("all", "class"):
+            self.points.append((node._mid, "class", 0, fn, node.lineno))
         elif isinstance(node, ast.Expr) and isinstance(node.value, ast.Call) and self.stack:
             f = node.value.func
             if not (isinstance(f, ast.Attribute) and f.attr in ("set_changed", "all_changed", "seterr")):
@@ -119,6 +125,8 @@ class Applier(ast.NodeTransformer):
                 node.attr = SWAP[node.attr]
             elif k == "swapname":
                 node.id = "RIGHT" if node.id == "LEFT" else "LEFT"
+            elif k == "class":
+                node.id = CLASS[node.id]
         return super().generic_visit(node)
 
 
@@ -130,6 +138,8 @@ def points_for(rel):
     pts = c.points
     if OPS == "swap":
         pts = [p for p in pts if p[1] in ("swap", "swapname")]
+    if OPS == "class":
+        pts = [p for p in pts if p[1] == "class"]
     return src, pts
 
 
